@@ -21,6 +21,11 @@ def make_runs(run):
             continue
         f = FRACS[(k // 3) % len(FRACS)]
         runs.append(dict(p=p, frac=f, replace_all=(k % 5 == 0), ignore=False, seed=run.rng.randrange(1 << 30), parts=("atoms", "count", "outcome"), kind="planted"))
+    for j in range(1 if run.tier == "quick" else 6):
+        # a structure with a few hundred further atoms (size-dependent code paths)
+        p = RG.make_problem(run.rng, 7000 + j, repl_mode=["substitute", "larger", "subset"][j % 3], flavor="crowded", with_terms=False, pattern="asym4", big=True)
+        if p is not None:
+            runs.append(dict(p=p, frac=Fraction(1), replace_all=False, ignore=False, seed=run.rng.randrange(1 << 30), parts=("atoms", "count", "outcome"), kind="crowded"))
     return runs
 
 
